@@ -118,7 +118,14 @@ Print Assumptions c18_leaf_means_read_by_name.
    being read off the first leaf of the population).  All the theorems of this section are conditional on
    `get_leaf_means ... = ROk m`, so none needed a new hypothesis; what an accepted file satisfies is stated here:
    the `sum` row of the first leaf of every aggregated population is not empty (zero_row = false), i.e. the file
-   has at least one gene.  c18_refside_example_zero_genes: the excluded file is exactly where Python raises. *)
+   has at least one gene.  c18_refside_example_zero_genes: the excluded file is exactly where Python raises.
+   LABEL (audit 4, A6): BY CONSTRUCTION OF THE MODEL; THE CONTENT IS IN THE TIE.  This theorem is the model's own
+   guard read back: get_leaf_means answers ROk only after agg_check has tested exactly `zero_row cs l0 = false`
+   for the first leaf of every population (a five-line induction re-proves it), and its conclusion is phrased in
+   the model's internals.  It says nothing about the real code beyond "the model has that branch"; that the real
+   aggregate_stats raises ValueError on exactly those files, and accepts a 1-gene file, is what the harness runs
+   (harness/props/c18*.py, the zero-gene statistics files).  It is kept because MANIFEST / DESIGN cite it
+   and because it records which inputs the conditional theorems of this section cover. *)
 Theorem c18_leaf_means_accepted_has_genes : forall (A : Type) (mean : Z -> Z -> A) t sf fs m,
   get_leaf_means A mean t sf fs = ROk m ->
   exists cs, raw_stats sf (sf_c2r sf) = Some cs /\
